@@ -211,7 +211,7 @@ impl<'a> GExec<'a> {
             }
             let spec = ProofSpec {
                 set: pi as u8,
-                mask: u32::MAX,
+                mask: u64::MAX,
                 tamper: Tamper::None,
                 sig_fault: SigFault::None,
                 digest: DigestVar::default(),
@@ -858,7 +858,7 @@ impl<'a> GExec<'a> {
             let latest_h = self.gws[g].m.by_epoch.get(&self.gws[g].m.epoch).copied();
             let latest_pool = latest_h.and_then(|h| self.known_sets.get(&h).cloned()).and_then(|s| self.cfg.pool.iter().position(|p| *p == s));
             let Some(lp) = latest_pool else { continue };
-            let spec = ProofSpec { set: lp as u8, mask: u32::MAX, tamper: Tamper::None, sig_fault: SigFault::None, digest: DigestVar::default() };
+            let spec = ProofSpec { set: lp as u8, mask: u64::MAX, tamper: Tamper::None, sig_fault: SigFault::None, digest: DigestVar::default() };
             let m = MMsg {
                 source_chain: "tail".to_string(),
                 message_id: format!("fresh-{}", g),
